@@ -69,6 +69,14 @@ STUBS = {
 }
 
 
+def _match(tok, tag, name):
+    """--only token: <name-substring>[@<set tag>] or a bare set tag"""
+    if "@" in tok:
+        a, b = tok.split("@", 1)
+        return b == tag and a in name
+    return tok == tag or tok in name
+
+
 def sel(tag, k, name):
     return "verif_lms_%s_%d::%s" % (tag, k, name)
 
@@ -83,7 +91,7 @@ def run(tier, only=None):
         for name, d in H.items():
             if tier not in d["tiers"]:
                 continue
-            if only and not any(o in name or o == tag for o in only):
+            if only and not any(_match(o, tag, name) for o in only):
                 continue
             cap = d["cap"][0 if tier == "quick" else 1]
             items.append((tag, k, f, mod, name, d, cap))
